@@ -1,5 +1,6 @@
 """C10: the step schedule is complete, ordered and agrees with what can be executed."""
 import os
+import re
 import shutil
 
 from .. import core
@@ -27,6 +28,11 @@ def run(ctx):
         if fn.endswith(".sh"):
             with open(os.path.join(stubs, fn), "w") as f:
                 f.write('echo "stub %s $1"\nexit 0\n' % fn)
+    # how the orchestrator hands a step name to the runner (util.sh step_exec): with or without `--`
+    m = re.search(r'"\$\{ROBSDEXEC\}"[^\n]*\\\n\s*\$\{_trace:\+-x\}\s+(--\s+)?"\$\{_step\}"', open(os.path.join(d, "util.sh")).read())
+    if m is None:
+        ctx.disagreement("util.sh step_exec no longer invokes robsd-exec the way the check mirrors it", dict(expected='"${ROBSDEXEC}" -m MODE -C CONF ${_trace:+-x} [--] "${_step}"'))
+    dashdash = ["--"] if m is not None and m.group(1) else []
     reqs, obs = [], []
     kinds = {}
     distinct = set()
@@ -47,6 +53,8 @@ def run(ctx):
                 base += "parallel no\n"
             for _ in range(k):
                 nm = rng.choice(TESTS) if rng.random() < 0.8 else "t%d" % rng.randint(0, 99)
+                if rng.random() < 0.08:
+                    nm = rng.choice(["1", "2", "3", "9", "02", "12", str(rng.randint(1, k + 12))])     # a test directory that is a number
                 npar = rng.random() < 0.4
                 opts = []
                 if npar:
@@ -61,9 +69,9 @@ def run(ctx):
         elif mode == "canvas":
             k = rng.choice([1, 2, 3, 7, 15, 16, 17, 31, 32, 33, 40])
             for i in range(k):
-                nm = "s%d" % i if rng.random() < 0.9 else rng.choice(["dup", "end", "a/b"])
+                nm = "s%d" % i if rng.random() < 0.85 else rng.choice(["dup", "end", "a/b", "1", "2", "3", "02", str(rng.randint(1, k + 2)), "-1", "0"])
                 p = rng.random() < 0.4
-                base += 'step "%s" command { "true" }%s\n' % (nm, " parallel" if p else "")
+                base += 'step "%s" command { "echo" "ran" "%d" }%s\n' % (nm, i, " parallel" if p else "")
                 items.append((nm, p))
         conf = os.path.join(root, "t.conf")
         with open(conf, "w") as f:
@@ -116,13 +124,35 @@ def run(ctx):
                 ctx.violation("canvas schedule differs from the configured steps + end", dict(conf=base, lines=lines))
             distinct.add(tuple(items))
         # every listed name is resolvable by the step runner
-        if offset is None and t % 5 == 0:
-            for (_, nm, _) in lines[:: max(1, len(lines) // 6)]:
-                rc2, out2, err2 = core.run_cmd([os.path.join(d, "robsd-exec"), "-m", mode, "-C", conf, nm],
+        # ... and resolves to that step's own command (sampled; names that look like numbers always)
+        if offset is None:
+            configured = [x[0] for x in items]
+            picked = lines[:: max(1, len(lines) // 6)] if t % 5 == 0 else []
+            picked = picked + [x for x in lines if x not in picked and x[1] in configured and x[1].lstrip("-").isdigit()][:4]
+            for (_, nm, _) in picked:
+                if mode == "canvas" and nm == "end" and "end" in configured:
+                    continue
+                rc2, out2, err2 = core.run_cmd([os.path.join(d, "robsd-exec"), "-m", mode, "-C", conf] + dashdash + [nm],
                                                env=dict(os.environ, EXECDIR=stubs, ASAN_OPTIONS="detect_leaks=0"))
                 if rc2 != 0:
                     ctx.violation("listed step '%s' cannot be resolved/executed by robsd-exec (rc=%s)" % (nm, rc2),
-                                  dict(conf=base, stderr=err2.decode(errors="replace")[-300:]))
+                                  dict(conf=base, step=nm, cmd="robsd-exec -m %s -C CONF %s%s   (as util.sh step_exec invokes it)" % (mode, "-- " if dashdash else "", nm),
+                                       stderr=err2.decode(errors="replace")[-300:]))
+                    break
+                if nm == "end" and nm not in configured:
+                    continue        # the fixed end step has no command of its own (/dev/null)
+                ran = out2.decode(errors="replace").strip()
+                if nm in configured and mode == "canvas":
+                    ok = ran in ["ran %d" % i for i, x in enumerate(configured) if x == nm]
+                elif nm in configured:
+                    ok = ran.startswith("stub robsd-regress-exec.sh ") and ran[len("stub robsd-regress-exec.sh "):].rstrip("/") == nm.rstrip("/")
+                else:
+                    w = ran.split(" ")
+                    ok = len(w) >= 2 and w[0] == "stub" and nm in w[1]
+                kinds["resolved-own-command"] = kinds.get("resolved-own-command", 0) + 1
+                if not ok:
+                    ctx.violation("robsd-exec resolves the listed step '%s' to another step's command: it ran %r" % (nm, ran[:200]),
+                                  dict(conf=base, step=nm, stdout=ran[:300], cmd="robsd-exec -m %s -C CONF %s" % (mode, nm)))
                     break
     # ---- canvas configurations one of whose commands cannot be interpolated (unknown variable, ${builddir}
     # without a running invocation): whatever -L lists must be resolvable by the runner (listing nothing is fine)
